@@ -185,6 +185,9 @@ type item struct {
 	Target string `json:"target"` // ntp | scion-svc | scion-eh | disp | csptp-ev | csptp-gen | ntske | ntske-raw
 	Hex    string `json:"hex"`
 	Note   string `json:"note,omitempty"`
+	// Hold (stream targets): the peer keeps the connection open, saying nothing more, until the liveness of the
+	// listener has been checked (a slow or silent peer), instead of closing it right after writing.
+	Hold bool `json:"hold,omitempty"`
 }
 
 func (it item) data() []byte { b, _ := hex.DecodeString(it.Hex); return b }
@@ -194,6 +197,14 @@ type rig struct {
 	socks map[string]*net.UDPConn // one sender socket per UDP target (fixed 4-tuple)
 	app   *net.UDPConn            // forwarding target for dispatcher sentinels
 	seq   uint32
+	held  []net.Conn // stream connections kept open by "hold" items
+}
+
+func (r *rig) release() {
+	for _, c := range r.held {
+		c.Close()
+	}
+	r.held = nil
 }
 
 const appPortC08 = 40108
@@ -248,7 +259,11 @@ func (r *rig) send(it item) {
 		if err != nil {
 			return
 		}
-		defer conn.Close()
+		if it.Hold {
+			r.held = append(r.held, conn)
+		} else {
+			defer conn.Close()
+		}
 		conn.SetDeadline(time.Now().Add(500 * time.Millisecond))
 		var w io.ReadWriter = conn
 		if it.Target == "ntske" {
@@ -259,6 +274,9 @@ func (r *rig) send(it item) {
 			w = tc
 		}
 		w.Write(d)
+		if it.Hold {
+			return
+		}
 		buf := make([]byte, 4096)
 		conn.SetReadDeadline(time.Now().Add(40 * time.Millisecond))
 		w.Read(buf)
